@@ -993,6 +993,8 @@ def check(run):
         'last), class-axis normalisation of the weights and of all initialisers, fit_predict = predict(fit()), and a sign analysis of every '
         'data-dependent denominator on the E-/M-step and initialiser paths. Numeric range of values is not decided.')
     run.trusted = ['documented class axis -2 of (..., K, N) affiliations', 'table PRECONDITIONED of divisions licensed by "every class has non-zero mass"']
+    from ..opt import check_block_partitions
+    check_block_partitions(run, A, ('pb_bss.distribution.', 'pb_bss.initializer.'))
     check_posterior_routine(run, A, POSTERIOR, -2, want_weight=True, want_mask=True)
     check_posterior_routine(run, A, POSTERIOR_PA, -2, want_weight=False, want_mask=False, rank_fixed=True)
     check_posterior_return(run, A)
